@@ -105,12 +105,9 @@ def attribute(res, env_seed, pool, max_steps, K):
         if x["from_scope"] == "" and x["kind"] == "seq":
             return "C07:fallthrough:main-into-function", {"transition": x}
         return f"C07:{x['kind']}:{'main' if x['from_scope']=='' else 'function'}-into-function", {"transition": x}
-    br = diag.bad_returns(m)
+    br = diag.bad_returns(m, recmap)
     if br:
-        e = br[0]
-        if e[2] is None:
-            return "C06:return-without-call", {"event": list(e)}
-        return "C06:return-to-wrong-site", {"event": list(e)}
+        return br[0][0], {"event": list(br[0][1])}
     if tm.clobbers:
         c = tm.clobbers[0]
         return clobber_signature(c), {"clobber": c}
